@@ -120,7 +120,7 @@ CLAIMED = {
     ),
     "C08": (
         "Coq invariant by induction over arbitrary event lists / tie policies / transport behaviours (Hoare-style triples over the step monad, holding at assertion crashes too) + computed ladder and refutation witness + trace-equality correspondence + schedule oracle",
-        "13 theorems in coq/props/C08.v: in EVERY reachable world tx_count <= tx_limit, limit >= 1 for a current command, back-off exponent "
+        "14 theorems in coq/props/C08.v: the back-off is the PROTOCOL's, not the command's -- five single-attempt commands 10 s apart, all unanswered, are given up after 0.5, 1, 2, 4 and 4 s (C08_backoff_across_commands, computed; two such schedules run on the real FSM with the failure times the doubling rule gives); in EVERY reachable world tx_count <= tx_limit, limit >= 1 for a current command, back-off exponent "
         "<= 3 (so every wait is base x 2^k, k <= 3); limit = 1 + min(max_retries, MAX_RETRY_LIMIT) with the constant regenerated; the exact "
         "ladder (writes at +0, +0.5, +1.5, +3.5 s, failure at +7.5 s) by computation; 'never transmitted after the caller was answered' is "
         "REFUTED with a witness (transport-delayed write) that the oracle re-observes on the real FSM (KNOWN). PRIORITY THEN FIFO: in EVERY "
@@ -208,7 +208,7 @@ CLAIMED = {
     ),
     "C13": (
         "Coq proof (engine pause/resume automaton: every snapshot/restore, succeeding or raising, leaves every engine variable unchanged; invariant of all reachable states by induction) + step-by-step correspondence with the real Gateway + exploration of all public views over derived histories",
-        "9 theorems in coq/props/C13.v about coq/model/M_Engine.v (= Engine/Gateway._pause/_resume, get_state and "
+        "11 theorems in coq/props/C13.v about coq/model/M_Engine.v and M_TxRate.v (a view of the LIVE gateway: the transmit rate in Gateway.status, also evaluated inside every write -- for EVERY history of transmits a positive time apart, read at ANY later moment, it is a number: C13_tx_rate_total; the early-exit slip refuted; tied by correspondence:tx-rate on real PortTransport objects; M_Engine = Engine/Gateway._pause/_resume, get_state and "
         "_restore_cached_packets as pause; body; resume with the body free to raise): for every up engine and ANY sequence of snapshots "
         "and restores in any mix of successes and failures, handler / sending switch / discovery switch / writing flag / the transport's reading flag (has_tr, rd_paused: a packet is taken from the source only while reading) / saved tuple are "
         "exactly as before and the next packet reaches the same handler; a snapshot while a client holds the engine paused is refused and "
